@@ -67,6 +67,9 @@ type vfC16Sess struct {
 type vfC16Old struct {
 	c      *vfMqClient
 	topics map[string]byte // filters of its session when it was superseded (what its teardown will unsubscribe at least)
+	// parked: the connection is over (DISCONNECT / dropped socket), its teardown sits in the
+	// pipeline configured for the Disconnect packet type until the harness releases it
+	parked bool
 }
 
 type vfC16Run struct {
@@ -87,6 +90,8 @@ type vfC16Run struct {
 	restored      map[string]bool // filters the live connection got from the previous session and has not touched
 	freshAfter    bool            // live connection started with a fresh session
 	pipelined     bool            // pipelined session writes happened since the last store check
+	queueFull     bool            // a session change was made while the store queue was full, since the last store check
+	withDisc      bool            // the broker has a pipeline for the Disconnect packet type (rig.DiscGate)
 	subAfterTake  bool            // live connection subscribed after taking over
 	ntTeardown    bool
 	ntRestore     bool
@@ -520,6 +525,131 @@ func (r *vfC16Run) stepWriteFailure() {
 	r.deadRegistered = r.rig.registered(r.cid) != nil
 }
 
+// stepQueueFull: a SUBSCRIBE / UNSUBSCRIBE while the store is stalled and the broker-wide queue of
+// session records is full (FillStoreQueue). The broker may make the client wait (the unchanged
+// code blocks until there is room) or not; either way, once the store has caught up the stored
+// record must hold the change (verify), because that record is what a later cleanSession=false
+// connect gets.
+func (r *vfC16Run) stepQueueFull() {
+	isSub := rapid.IntRange(0, 2).Draw(r.rt, "queueFullSub?") < 2
+	var fs []string
+	var qs []byte
+	if isSub {
+		fs, qs = r.drawSubs(rapid.IntRange(1, 2).Draw(r.rt, "nFilters"))
+		r.log("sub-while-store-queue-full(%s)", vfC16FmtSubs(fs, qs))
+	} else {
+		var held []string
+		for f := range r.sess.topics {
+			held = append(held, f)
+		}
+		sort.Strings(held)
+		if len(held) > 0 {
+			fs = []string{rapid.SampledFrom(held).Draw(r.rt, "filter")}
+		} else {
+			fs = []string{rapid.SampledFrom(vfC16Filters).Draw(r.rt, "filter")}
+		}
+		r.log("unsub-while-store-queue-full(%s)", fs[0])
+	}
+	r.vf.Class("step:session-change-while-store-queue-full")
+	if err := r.rig.Quiesce(); err != nil {
+		r.inconclusive("quiesce", err)
+	}
+	if err := r.rig.FillStoreQueue(); err != nil {
+		r.inconclusive("fill store queue", err)
+	}
+	c := r.live
+	id := c.newID()
+	kind := byte(packets.Suback)
+	var err error
+	if isSub {
+		err = c.write(vfMqSubscribePacket(id, fs, qs))
+	} else {
+		kind = packets.Unsuback
+		err = c.write(vfMqUnsubscribePacket(id, fs))
+	}
+	if err != nil {
+		r.liveFailed("write while store queue full", err)
+		return
+	}
+	// until the broker has answered or sits in Session.store waiting for room in the queue
+	deadline := time.Now().Add(vfMqWait)
+	for {
+		c.mu.Lock()
+		acked, eof := c.countLocked(kind, int(id)) > 0, c.eof
+		c.mu.Unlock()
+		if acked {
+			r.vf.Class("session-change-acknowledged-while-store-queue-full")
+			break
+		}
+		if eof {
+			r.liveFailed("session change while store queue full", fmt.Errorf("connection closed"))
+			return
+		}
+		if vfMqInSessionStore() {
+			r.vf.Class("session-change-waits-for-room-in-store-queue")
+			break
+		}
+		if time.Now().After(deadline) {
+			r.vf.Class("probe-unavailable:session-store-frame")
+			break
+		}
+		time.Sleep(200 * time.Microsecond)
+	}
+	if err := r.rig.StoreFence(); err != nil { // the store recovers and catches up
+		r.inconclusive("store fence", err)
+	}
+	if err := c.WaitAck(kind, id); err != nil {
+		r.liveFailed("ack after store recovered", err)
+		return
+	}
+	if isSub {
+		r.applySub(fs, qs)
+	} else {
+		r.applyUnsub(fs)
+	}
+	r.queueFull = true
+}
+
+// stepEndParked ends the live connection like stepEnd, but the pipeline the broker runs for the
+// Disconnect packet type when a connection is over (Client.close) is parked: the old connection's
+// teardown stands still in the middle, for as long as the script likes, while the client id
+// connects again. Releasing it later is that connection's "teardown" step.
+func (r *vfC16Run) stepEndParked() {
+	how := rapid.SampledFrom([]string{"halfclose", "disconnect"}).Draw(r.rt, "endHow")
+	r.log("end(%s; its Disconnect pipeline is parked)", how)
+	r.vf.Class("step:end-with-parked-disconnect-pipeline-" + how)
+	if err := r.rig.Quiesce(); err != nil {
+		r.inconclusive("quiesce", err)
+	}
+	c := r.live
+	r.rig.DiscGate.Arm(r.cid)
+	var err error
+	if how == "disconnect" {
+		err = c.Disconnect()
+	} else {
+		err = c.HalfClose()
+	}
+	if err != nil {
+		r.rig.DiscGate.Release(r.cid)
+		r.liveFailed("end", err)
+		return
+	}
+	if err := r.rig.DiscGate.WaitParked(r.cid); err != nil {
+		r.inconclusive("parked disconnect pipeline", err)
+	}
+	// whatever the teardown did before it entered the pipeline has its consequences now (store
+	// writes, the delete event of a clean session's record)
+	if err := r.rig.Quiesce(); err != nil {
+		r.inconclusive("quiesce", err)
+	}
+	r.olds = append(r.olds, &vfC16Old{c: c, topics: map[string]byte{}, parked: true})
+	r.live = nil
+	if r.sess != nil && r.sess.clean {
+		r.sess = nil
+	}
+	r.deadRegistered = r.rig.registered(r.cid) != nil
+}
+
 // stepEnd ends the live connection and waits until the broker finished its teardown.
 func (r *vfC16Run) stepEnd() {
 	how := rapid.SampledFrom([]string{"disconnect", "halfclose"}).Draw(r.rt, "endHow")
@@ -563,6 +693,9 @@ func (r *vfC16Run) stepTeardown() {
 	how := rapid.SampledFrom([]string{"ping", "halfclose"}).Draw(r.rt, "teardownHow")
 	o := r.olds[i]
 	r.olds = append(r.olds[:i:i], r.olds[i+1:]...)
+	if o.parked {
+		how = "release-of-its-disconnect-pipeline"
+	}
 	r.log("teardown(%s via %s)", o.c.Label, how)
 	r.vf.Class("step:teardown-" + how)
 	if r.subAfterTake {
@@ -572,7 +705,10 @@ func (r *vfC16Run) stepTeardown() {
 		r.vf.Class("teardown-before-new-connection-subscribed")
 	}
 	deadline := time.Now().Add(vfMqWait)
-	if how == "halfclose" {
+	if o.parked {
+		r.rig.DiscGate.Release(r.cid)
+		o.c.WaitEOF(vfMqWait)
+	} else if how == "halfclose" {
 		if err := o.c.HalfClose(); err != nil {
 			r.inconclusive("teardown half-close", err)
 		}
@@ -649,9 +785,12 @@ func (r *vfC16Run) verify() {
 		if r.pipelined {
 			key = vfC16KeyReorder
 		}
+		if r.queueFull {
+			key = "session-change-made-while-store-queue-full-not-in-stored-record"
+		}
 		r.violation(key, "stored record %v differs from the session's subscriptions %v after all writes were applied", stored, r.sess.topics)
 	}
-	r.pipelined = false
+	r.pipelined, r.queueFull = false, false
 	// --- routing entries of the model's filters
 	var modelFilters []string
 	for f := range r.sess.topics {
@@ -849,12 +988,19 @@ func TestVerifC16Sessions(t *testing.T) {
 	vf := vfBegin(t, "C16")
 	defer vf.End()
 	rapid.Check(t, func(rt *rapid.T) {
-		rig, err := vfMqNewRig(nil)
+		// half of the brokers have a pipeline for the Disconnect packet type (the option is rare in
+		// deployments, but then every end of a connection runs through it)
+		withDisc := rapid.SliceOfN(rapid.Bool(), 1, 1).Draw(rt, "disconnectPipelineBit")[0]
+		rig, err := vfMqNewRigGate(nil, withDisc)
 		if err != nil {
 			rt.Fatalf("VF-INCONCLUSIVE start broker: %v", err)
 		}
 		defer rig.Close()
-		r := &vfC16Run{rt: rt, vf: vf, rig: rig, restored: map[string]bool{}, faults: map[*vfMqClient]*vfMqFaultConn{}}
+		r := &vfC16Run{rt: rt, vf: vf, rig: rig, restored: map[string]bool{}, faults: map[*vfMqClient]*vfMqFaultConn{}, withDisc: withDisc}
+		if withDisc {
+			vf.Class("broker-with-disconnect-pipeline")
+			r.log("disconnect-pipeline=configured")
+		}
 		r.cid = vfC16DrawID(rt)
 		r.log("id=%q", r.cid)
 		if strings.Contains(r.cid, "/") {
@@ -876,9 +1022,16 @@ func TestVerifC16Sessions(t *testing.T) {
 					r.connect(rapid.IntRange(0, 9).Draw(rt, "clean") < cleanBelow, false)
 				}
 			} else {
-				ops := []string{"sub", "sub", "sub", "unsub", "unsub", "pipelined", "end", "end"}
+				ops := []string{"sub", "sub", "sub", "unsub", "unsub", "pipelined", "queue-full", "end", "end"}
 				if len(r.olds) < 2 {
 					ops = append(ops, "takeover", "takeover")
+				}
+				parkedOld := false
+				for _, o := range r.olds {
+					parkedOld = parkedOld || o.parked
+				}
+				if r.withDisc && !parkedOld && len(r.olds) < 2 {
+					ops = append(ops, "end-parked", "end-parked", "end-parked")
 				}
 				if r.faults[r.live] != nil && len(r.olds) < 2 {
 					ops = append(ops, "write-failure", "write-failure", "write-failure")
@@ -897,6 +1050,10 @@ func TestVerifC16Sessions(t *testing.T) {
 					r.stepUnsub()
 				case "pipelined":
 					r.stepPipelined()
+				case "queue-full":
+					r.stepQueueFull()
+				case "end-parked":
+					r.stepEndParked()
 				case "end":
 					r.stepEnd()
 				case "takeover":
@@ -916,7 +1073,11 @@ func TestVerifC16Sessions(t *testing.T) {
 			if r.live == nil {
 				// nothing to protect any more; just end them
 				for _, o := range r.olds {
-					o.c.HalfClose()
+					if o.parked {
+						r.rig.DiscGate.Release(r.cid)
+					} else {
+						o.c.HalfClose()
+					}
 					o.c.WaitEOF(vfMqWait)
 				}
 				r.olds = nil
